@@ -207,6 +207,30 @@ def _removed_is_tested(fi, r, running):
                 return True, 'loop left after the deletion'
         return False, 'indices are enumerated in ascending order over %s while elements are ' \
             'deleted from it: after the first deletion every later index is off by one' % running
+    # for idx in range(len(L) - 1, -1, -1) / reversed(range(len(L))) / range(len(L))
+    rng = it
+    if isinstance(rng, ast.Call) and is_name(rng.func, 'range') and isinstance(tgt, ast.Name) and \
+            norm(tgt) == norm(idx):
+        a = [norm(x) for x in rng.args]
+        ln = 'len(%s)' % running
+        desc_form = a == [ln + ' - 1', '-1', '-1']
+        asc_form = a in ([ln], ['0', ln])
+        if not (desc_form or asc_form):
+            return None, 'unrecognised index range %s' % norm(rng)
+        is_desc = desc_form != descending if desc_form else descending
+        # the tested element is L[idx] (directly or through a local bound to it in the loop)
+        t = tested
+        if isinstance(t, ast.Name):
+            defs = [x.value for x in ast.walk(loop) if isinstance(x, ast.Assign) and
+                    any(is_name(y, t.id) for y in x.targets)]
+            t = defs[0] if len(defs) == 1 else t
+        if not (isinstance(t, ast.Subscript) and dotted(t.value) == running and norm(t.slice) == norm(idx)):
+            return False, 'the element tested (%s) is not %s[%s], the one deleted' % (
+                norm(tested), running, norm(idx))
+        if is_desc:
+            return True, 'descending indices'
+        return False, 'indices run upwards over %s while elements are deleted from it: after the ' \
+            'first deletion every later index is off by one (or out of range)' % running
     return None, 'unrecognised iteration %s' % norm(loop.iter)
 
 
